@@ -1,103 +1,7 @@
-(* C20 -- proofs.  Part 1: the hand-written model of the ladders meets the documented
-   contract for every platform, method name, native call, error, state and pid.
-   Part 2: the tables generated from the current code meet the contract and the model
-   (finite facts about the program text, checked by computation and lifted). *)
-From PV Require Import C20.Check.
+(* C20 -- proofs, part 2: the tables generated from the current code meet the contract and the
+   model (finite facts about the program text, checked by computation and lifted). *)
+From PV Require Import C20.Check C20.ProofsModel.
 From PV Require Import Gen.C20_Tables.
-
-(* ------------------------------------------------------------------ part 1 *)
-Ltac case_cond c := destruct c as [e s z]; destruct e, s, z; cbn in *; try discriminate; try congruence.
-
-Lemma ladder_plain : forall p meth site c r,
-  match p with FreeBSD | OpenBSD | MacOS => True | _ => False end ->
-  err_ok p (c_err c) = true -> demanded p meth site c = Some r -> method_outcome p meth site c = r.
-Proof.
-  intros p meth site c r Hp He Hd.
-  unfold demanded, recovery, contract, nosuch_failure, method_outcome, inner in *.
-  destruct p; try contradiction; case_cond c.
-Qed.
-
-Lemma ladder_netbsd : forall meth site c r,
-  err_ok NetBSD (c_err c) = true -> known_pid0_unlisted NetBSD meth site c = false ->
-  demanded NetBSD meth site c = Some r -> method_outcome NetBSD meth site c = r.
-Proof.
-  intros meth site c r He Hk Hd.
-  unfold demanded, recovery, contract, nosuch_failure, method_outcome, inner, wrap_procfs, known_pid0_unlisted in *.
-  destruct (g_netbsd_cmdline meth site), (g_netbsd_exe meth site); case_cond c.
-Qed.
-
-Lemma ladder_sunos : forall meth site c r,
-  err_ok SunOS (c_err c) = true -> known_pid0_unlisted SunOS meth site c = false ->
-  demanded SunOS meth site c = Some r -> method_outcome SunOS meth site c = r.
-Proof.
-  intros meth site c r He Hk Hd.
-  unfold demanded, recovery, contract, nosuch_failure, method_outcome, inner, known_pid0_unlisted in *.
-  destruct (g_sunos_cred meth site), (g_sunos_exe meth site), (g_sunos_path meth site), (g_sunos_thread meth site);
-    case_cond c.
-Qed.
-
-Lemma ladder_aix : forall meth site c r,
-  err_ok AIX (c_err c) = true -> demanded AIX meth site c = Some r -> method_outcome AIX meth site c = r.
-Proof.
-  intros meth site c r He Hd.
-  unfold demanded, recovery, contract, nosuch_failure, method_outcome, inner in *.
-  destruct (g_aix_cwd meth site), (g_aix_io meth site); case_cond c.
-Qed.
-
-Lemma ladder_windows : forall meth site c r,
-  err_ok Windows (c_err c) = true ->
-  demanded Windows meth site c = Some r -> method_outcome Windows meth site c = r.
-Proof.
-  intros meth site c r He Hd.
-  unfold demanded, recovery, contract, nosuch_failure, method_outcome, inner in *.
-  destruct (g_win_partial meth), (g_win_fallback meth site); case_cond c.
-Qed.
-
-Theorem ladder_model : forall p meth site c r,
-  err_ok p (c_err c) = true -> known_pid0_unlisted p meth site c = false ->
-  demanded p meth site c = Some r -> method_outcome p meth site c = r.
-Proof.
-  intros p meth site c r He Hk Hd. destruct p.
-  - apply ladder_plain; auto.
-  - apply ladder_plain; auto.
-  - apply ladder_netbsd; auto.
-  - apply ladder_plain; auto.
-  - apply ladder_sunos; auto.
-  - apply ladder_aix; auto.
-  - apply ladder_windows; auto.
-Qed.
-
-(* the code before fix a2d103c (undecorated Windows ppid()): a permission failure of ppid_map()
-   left as the bare error; the present model gives AccessDenied there *)
-Theorem ppid_unwrapped_legacy_refuted :
-  exists c, err_ok Windows (c_err c) = true /\ demanded Windows "ppid" "ppid_map" c = Some RDenied
-            /\ method_outcome_pre_a2d103c Windows "ppid" "ppid_map" c = RRaw
-            /\ method_outcome Windows "ppid" "ppid_map" c = RDenied.
-Proof. exists (Build_cond WACCESS Alive false). vm_compute. auto. Qed.
-
-(* finding: a PID 0 the OS does not list is still taken to exist *)
-Theorem pid0_unlisted_refuted :
-  (exists c, err_ok SunOS (c_err c) = true /\ c_pid0 c = true /\ c_state c = Gone
-             /\ demanded SunOS "ppid" "proc_basic_info" c = Some RNoSuch
-             /\ method_outcome SunOS "ppid" "proc_basic_info" c = RZombie)
-  /\ (exists c, err_ok NetBSD (c_err c) = true /\ c_pid0 c = true /\ c_state c = Gone
-               /\ demanded NetBSD "cmdline" "proc_cmdline" c = Some RNoSuch
-               /\ method_outcome NetBSD "cmdline" "proc_cmdline" c = RVal).
-Proof.
-  split; [exists (Build_cond ESRCH Gone true) | exists (Build_cond EINVAL Gone true)]; vm_compute; auto 10.
-Qed.
-
-(* the PID-0 rule needs PID 0 to be listed: otherwise the error passes through *)
-Example pid0_not_listed_passes_through :
-  demanded SunOS "nice_get" "proc_basic_info" (Build_cond EIO Gone true) = Some RRaw
-  /\ demanded FreeBSD "ppid" "proc_oneshot_info" (Build_cond EINVAL Gone true) = Some RRaw
-  /\ known_pid0_unlisted SunOS "nice_get" "proc_basic_info" (Build_cond EIO Gone true) = false.
-Proof. vm_compute. auto. Qed.
-
-Example ladder_model_nontrivial :
-  err_ok SunOS EIO = true /\ known_pid0_unlisted SunOS "nice_get" "proc_basic_info" (Build_cond EIO Alive true) = false /\
-  demanded SunOS "nice_get" "proc_basic_info" (Build_cond EIO Alive true) = Some RDenied.
-Proof. vm_compute. auto. Qed.
 
 (* ------------------------------------------------------------------ part 2: generated tables *)
 Lemma Forall2_conj {A B} (P Q : A -> B -> Prop) l1 l2 :
@@ -115,7 +19,7 @@ Lemma ladder_tables_model : forallb block_model_ok ladder_blocks = true.
 Proof. vm_compute. reflexivity. Qed.
 
 Theorem ladder_contract : forall b, In b ladder_blocks ->
-  Forall2 (fun c g => known_pid0_unlisted (l_plat b) (l_meth b) (l_site b) c = false ->
+  Forall2 (fun c g => known_class (l_plat b) (l_meth b) (l_site b) c = false ->
                       gout_ok (demanded (l_plat b) (l_meth b) (l_site b) c) g = true) (conds (l_plat b)) (l_outs b).
 Proof.
   intros b Hin. pose proof (proj1 (forallb_forall _ _) ladder_tables_spec b Hin) as H.
@@ -154,6 +58,20 @@ Proof.
     [| vm_compute in E; discriminate].
   apply find_some in E as [Hin Hb]. apply andb_true_iff in Hb as [Hp Hf].
   exists b. repeat split; auto. apply plat_eqb_eq; exact Hp. apply negb_true_iff in Hf; exact Hf.
+Qed.
+
+Theorem win_mmaps_in_tables :
+  exists b, In b ladder_blocks /\ l_plat b = Windows /\ l_meth b = "memory_maps"%string /\ l_site b = "QueryDosDevice"%string /\
+    forallb2 (fun c g => gout_ok (demanded (l_plat b) (l_meth b) (l_site b) c) g) (conds (l_plat b)) (l_outs b) = false.
+Proof.
+  destruct (find (fun b => plat_eqb (l_plat b) Windows && String.eqb (l_meth b) "memory_maps" && String.eqb (l_site b) "QueryDosDevice"
+                           && negb (forallb2 (fun c g => gout_ok (demanded (l_plat b) (l_meth b) (l_site b) c) g)
+                                             (conds (l_plat b)) (l_outs b))) ladder_blocks) as [b|] eqn:E;
+    [| vm_compute in E; discriminate].
+  apply find_some in E as [Hin Hb]. apply andb_true_iff in Hb as [Hb Hf]. apply andb_true_iff in Hb as [Hb Hs].
+  apply andb_true_iff in Hb as [Hp Hm].
+  exists b. repeat split; auto. apply plat_eqb_eq; exact Hp. apply String.eqb_eq; exact Hm. apply String.eqb_eq; exact Hs.
+  apply negb_true_iff in Hf; exact Hf.
 Qed.
 
 (* --- every native status code of every PROC_STATUSES *)
@@ -283,82 +201,6 @@ Proof. vm_compute. reflexivity. Qed.
 Theorem frontend_rows_equal_model : forall r, In r nic_rows -> nic_ok r = true.
 Proof. intros r Hin. exact (proj1 (forallb_forall _ _) nic_tables_ok r Hin). Qed.
 
-(* ------------------------------------------------------------------ two native calls, retries, wait() *)
-Ltac case_pair := match goal with e1 : err, e2 : err, s : pstate, z : bool |- _ => destruct e1, e2, s, z end;
-                  cbn in *; try discriminate; try congruence.
-
-Lemma pair_windows_b : forall meth site1 site2 e1 e2 s z,
-  err_ok Windows e1 && err_ok Windows e2 = true ->
-  match pair_demanded Windows meth site1 site2 e1 e2 s z with
-  | Some r => res_eqb (pair_outcome Windows meth site1 site2 e1 e2 s z) r
-  | None => true
-  end = true.
-Proof.
-  intros meth site1 site2 e1 e2 s z.
-  unfold pair_demanded, second_route, pair_outcome, demanded, recovery, contract, nosuch_failure, method_outcome, inner.
-  destruct (g_win_cmdline_pair meth site1 site2), (g_win_fallback meth site1), (seq site2 "proc_info"), (g_win_partial meth),
-    e1, e2, s, z; vm_compute; intro H; (reflexivity || discriminate H).
-Qed.
-
-Lemma pair_windows : forall meth site1 site2 e1 e2 s z r,
-  err_ok Windows e1 = true -> err_ok Windows e2 = true ->
-  pair_demanded Windows meth site1 site2 e1 e2 s z = Some r -> pair_outcome Windows meth site1 site2 e1 e2 s z = r.
-Proof.
-  intros meth site1 site2 e1 e2 s z r H1 H2 Hd.
-  pose proof (pair_windows_b meth site1 site2 e1 e2 s z) as H. rewrite H1, H2, Hd in H.
-  apply res_eqb_eq. exact (H eq_refl).
-Qed.
-
-Lemma pair_sunos : forall meth site1 site2 e1 e2 s z r,
-  err_ok SunOS e1 = true -> err_ok SunOS e2 = true -> pair_known SunOS meth site1 site2 e1 e2 s z = false ->
-  pair_demanded SunOS meth site1 site2 e1 e2 s z = Some r -> pair_outcome SunOS meth site1 site2 e1 e2 s z = r.
-Proof.
-  intros meth site1 site2 e1 e2 s z r H1 H2 Hk Hd.
-  unfold pair_demanded, second_route, pair_outcome, pair_known, known_pid0_unlisted, demanded, recovery, contract,
-    nosuch_failure, method_outcome, inner in *.
-  destruct (g_sunos_cred meth site1), (seq site2 "proc_basic_info"), (g_sunos_exe meth site1), (g_sunos_path meth site1),
-    (g_sunos_thread meth site1); case_pair.
-Qed.
-
-Theorem pair_model : forall p meth site1 site2 e1 e2 s z r,
-  err_ok p e1 = true -> err_ok p e2 = true -> pair_known p meth site1 site2 e1 e2 s z = false ->
-  pair_demanded p meth site1 site2 e1 e2 s z = Some r -> pair_outcome p meth site1 site2 e1 e2 s z = r.
-Proof.
-  intros p meth site1 site2 e1 e2 s z r H1 H2 Hk Hd.
-  destruct p; try (apply pair_windows; assumption); try (apply pair_sunos; assumption);
-    (unfold pair_known in Hk; apply orb_false_iff in Hk as [Hk1 _];
-     unfold pair_demanded, second_route in Hd; unfold pair_outcome;
-     apply ladder_model; assumption).
-Qed.
-
-Lemma known_pid0_windows meth site c : known_pid0_unlisted Windows meth site c = false.
-Proof. unfold known_pid0_unlisted. apply andb_false_r. Qed.
-
-Theorem retry_model : forall meth site k then_ s z r,
-  (forall e, then_ = Some e -> err_ok Windows e = true) ->
-  retry_demanded meth site k then_ s z = Some r -> retry_outcome meth site k then_ s z = r.
-Proof.
-  intros meth site k then_ s z r He Hd. unfold retry_demanded, retry_outcome in *.
-  destruct (g_win_partial meth).
-  - destruct (33 <=? k); [congruence|]. destruct then_ as [e|]; [|congruence].
-    apply ladder_model; [apply (He e eq_refl) | apply known_pid0_windows | exact Hd].
-  - apply ladder_model; [reflexivity | apply known_pid0_windows | exact Hd].
-Qed.
-
-Theorem wait_model : forall p w s,
-  (w = WNativeTimeout -> p = Windows) -> wait_outcome p w s = wait_demanded p w s.
-Proof.
-  intros p w s H. destruct w; destruct p; try reflexivity; specialize (H eq_refl); discriminate.
-Qed.
-
-Example pair_nontrivial :
-  pair_demanded Windows "cpu_times" "proc_times" "proc_info" WACCESS ESRCH Gone false = Some RNoSuch
-  /\ pair_demanded Windows "cmdline" "proc_cmdline[peb]" "proc_cmdline[nopeb]" EACCES WPARTIAL Alive false = Some RDenied
-  /\ pair_demanded SunOS "uids" "proc_cred" "proc_basic_info" EPERM EIO Alive false = Some RRaw
-  /\ retry_demanded "cwd" "proc_cwd" 32 None Alive false = Some RVal
-  /\ retry_demanded "cwd" "proc_cwd" 33 None Alive false = Some RDenied.
-Proof. vm_compute. auto 10. Qed.
-
 Lemma pair_tables_ok :
   forallb pblock_ok pair_blocks && pblocks_complete pair_blocks && forallb rrow_ok retry_rows
   && forallb wrow_ok wait_rows && wrows_complete wait_rows = true.
@@ -371,14 +213,19 @@ Theorem pair_contract : forall b, In b pair_blocks ->
              /\ gout_ok (Some (pair_outcome (pb_plat b) (pb_meth b) (pb_site1 b) (pb_site2 b) e1 e2 s z)) g = true end)
           (pair_conds (pb_plat b)) (pb_outs b).
 Proof.
-  intros b Hin. pose proof pair_tables_ok as H. repeat (apply andb_true_iff in H as [H _]).
+  intros b Hin. pose proof pair_tables_ok as H.
+  apply andb_true_iff in H as [H _]. apply andb_true_iff in H as [H _]. apply andb_true_iff in H as [H _]. apply andb_true_iff in H as [H _].
   pose proof (proj1 (forallb_forall _ _) H b Hin) as Hb. unfold pblock_ok in Hb. apply forallb2_Forall2 in Hb.
   eapply Forall2_imp; [|exact Hb]. cbv beta. intros [[[e1 e2] s] z] g Hq.
   apply andb_true_iff in Hq as [Ha Hm]. split; [|exact Hm]. intro Hk. rewrite Hk in Ha. exact Ha.
 Qed.
 
 Theorem pair_blocks_complete : pblocks_complete pair_blocks = true.
-Proof. pose proof pair_tables_ok as H. repeat (apply andb_true_iff in H as [H ?]). assumption. Qed.
+Proof.
+  pose proof pair_tables_ok as H.
+  apply andb_true_iff in H as [H _]. apply andb_true_iff in H as [H _]. apply andb_true_iff in H as [H _]. apply andb_true_iff in H as [_ H].
+  exact H.
+Qed.
 
 Theorem retry_rows_ok : forall r, In r retry_rows -> rrow_ok r = true.
 Proof.
@@ -390,4 +237,39 @@ Theorem wait_rows_ok : (forall r, In r wait_rows -> wrow_ok r = true) /\ wrows_c
 Proof.
   pose proof pair_tables_ok as H. apply andb_true_iff in H as [H Hc]. apply andb_true_iff in H as [_ H].
   split; [|exact Hc]. intros r Hin. exact (proj1 (forallb_forall _ _) H r Hin).
+Qed.
+
+(* ------------------------------------------------------------------ named tuples of the system-wide functions *)
+Lemma sysfields_ok : forallb sfrow_ok sysfield_rows && sfrows_complete sysfield_rows = true.
+Proof. vm_compute. reflexivity. Qed.
+
+Theorem names_fields_documented : forall r, In r sysfield_rows ->
+  known_sys_fields (sf_plat r) (sf_fn r) = false -> same_set (sf_fields r) (doc_sys_fields (sf_plat r) (sf_fn r)) = true.
+Proof.
+  intros r Hin Hk. pose proof sysfields_ok as H. apply andb_true_iff in H as [H _].
+  pose proof (proj1 (forallb_forall _ _) H r Hin) as Hr. unfold sfrow_ok in Hr. rewrite Hk in Hr. exact Hr.
+Qed.
+
+Theorem names_fields_complete : sfrows_complete sysfield_rows = true.
+Proof. pose proof sysfields_ok as H. apply andb_true_iff in H as [_ H]. exact H. Qed.
+
+Theorem sys_fields_unix_refuted : forall p, In p [SunOS; AIX] ->
+  exists r, In r sysfield_rows /\ sf_plat r = p /\ sf_fn r = "cpu_times"%string /\ sfrow_doc_ok r = false
+            /\ mem "nice" (sf_fields r) = false /\ mem "iowait" (sf_fields r) = true.
+Proof.
+  intros p Hp.
+  assert (H : forallb (fun p => match find (fun r => plat_eqb (sf_plat r) p && String.eqb (sf_fn r) "cpu_times" && negb (sfrow_doc_ok r)
+                                                     && negb (mem "nice" (sf_fields r)) && mem "iowait" (sf_fields r)) sysfield_rows with
+                                | Some _ => true | None => false end) [SunOS; AIX] = true) by (vm_compute; reflexivity).
+  pose proof (proj1 (forallb_forall _ _) H p Hp) as H1. cbv beta in H1.
+  destruct (find (fun r => plat_eqb (sf_plat r) p && String.eqb (sf_fn r) "cpu_times" && negb (sfrow_doc_ok r)
+                           && negb (mem "nice" (sf_fields r)) && mem "iowait" (sf_fields r)) sysfield_rows) as [r|] eqn:E; [|discriminate].
+  apply find_some in E as [Hin Hb].
+  apply andb_true_iff in Hb as [Hb Hio]. apply andb_true_iff in Hb as [Hb Hn]. apply andb_true_iff in Hb as [Hb Hd].
+  apply andb_true_iff in Hb as [Hpl Hf].
+  exists r. repeat split; auto.
+  - apply plat_eqb_eq; exact Hpl.
+  - apply String.eqb_eq; exact Hf.
+  - apply negb_true_iff; exact Hd.
+  - apply negb_true_iff; exact Hn.
 Qed.
